@@ -529,6 +529,12 @@ func (s *Server) Prepare(conf *ServerConfig) (err error) {
 
 	s.dnsProxy = dnsProxy
 
+	// The request IDs of the new proxy start from the beginning, so drop the
+	// ClientIDs cached for the requests of the previous one.
+	if s.clientIDCache != nil {
+		s.clientIDCache.Clear()
+	}
+
 	s.setupAddrProc()
 
 	s.registerHandlers()
